@@ -298,6 +298,27 @@ def structural(st):
             if r != ('ok', False):
                 st.fail('grid-equality-raised' if r[0] == 'raise' else 'materially-different-grids-compare-equal',
                         {'difference': name, 'exc': str(r[1])}, {'kind': 'structural', 'difference': name, 'order': d}, {'observed': repr(r)})
+    def nested(meta='m', cmeta='u', col='x', val=1.0, rows=1):
+        inner = hs.Grid(version='3.0', columns=[(col, [('cm', cmeta)])])
+        inner.metadata['im'] = meta
+        for i in range(rows):
+            inner.append({col: val})
+        g = hs.Grid(version='3.0', columns=[('a', []), ('b', [])])
+        g.append({'a': inner, 'b': [inner, {'k': inner}]})
+        return g
+
+    for name, kw in (('nested-grid-metadata', {'meta': 'other'}), ('nested-grid-column-metadata', {'cmeta': 'other'}), ('nested-grid-column-name', {'col': 'y'}),
+                     ('nested-grid-cell', {'val': 2.0}), ('nested-grid-row-count', {'rows': 2})):
+        for x, y, d in ((nested(), nested(**kw), 'a,b'), (nested(**kw), nested(), 'b,a')):
+            st.count('executions')
+            r = ev(lambda: x == y)
+            st.case(('structural', name, d), outcome=(r[0], str(r[1])))
+            if r != ('ok', False):
+                st.fail('grid-equality-raised' if r[0] == 'raise' else 'materially-different-grids-compare-equal',
+                        {'difference': name, 'exc': str(r[1])}, {'kind': 'structural', 'difference': name, 'order': d}, {'observed': repr(r)})
+    st.count('executions')
+    if ev(lambda: nested() == nested()) != ('ok', True):
+        st.fail('grid-not-equal-to-faithful-copy', {'slot_kind': 'nested', 'kinds': 'grid'}, {'kind': 'structural', 'difference': 'none', 'order': 'a,b'}, {})
     for other in (5, 'x', None, [], {}):
         st.count('executions')
         r = ev(lambda: base() == other)
